@@ -22,7 +22,7 @@ Inductive dcase :=
   (* the definitions gathered for a parameter schema (ReferenceVisitor):
      definition graph, the references of the schema itself, and the keys found
      under components.schemas (None: the real code panicked) *)
-| CDeps (dfs : list (str * list str)) (roots : list str) (keys : option (list str)).
+| CDeps (dfs : list (str * list str)) (roots : list str) (obs : option (list str * list str * bool)).
 
 Fixpoint parse_all (eps : list (str * ep)) : option (list (decl N)) :=
   match eps with
@@ -97,14 +97,15 @@ Definition same_set (a b : list str) : bool :=
 
 Definition judge (c : dcase) : N :=
   match c with
-  | CDeps dfs roots keys =>
-      (* the property: every reference resolves inside the document — here:
-         whatever the parameter's schema reaches is among the components;
-         the model: exactly the reachable definitions are *)
-      match dependencies dfs roots, keys with
-      | Ok out, Some ks =>
-          if negb (forallb (fun x => mem_str x ks) out) then V_VIOLATION
-          else if same_set out ks then V_AGREE else V_DIVERGE
+  | CDeps dfs roots obs =>
+      (* the property: every schema reference of the document resolves inside
+         it; the model: the components hold exactly the definitions reachable
+         from the parameter / header schema, and a parameter struct over
+         scalar-resolving definitions is accepted *)
+      match dependencies dfs roots, obs with
+      | Ok out, Some (ks, refs, q_ok) =>
+          if negb (forallb (fun x => mem_str x ks) refs) then V_VIOLATION
+          else if same_set out ks && q_ok then V_AGREE else V_DIVERGE
       | Err (CE_invalid_ref _), None => V_AGREE
       | Err CE_fuel, _ => V_MALFORMED
       | _, _ => V_DIVERGE
